@@ -387,17 +387,17 @@ func C18(t Tier) int {
 		tk := aoltypes.TopicCompositeKey{OwnerAddress: ownerA, TopicName: tn}
 		var t2 aoltypes.TopicCompositeKey
 		if err := compkey.DecodeFromString(compkey.EncodeToString(&tk, aoltypes.GenesisKeySeparator), aoltypes.GenesisKeySeparator, &t2); err != nil || t2.TopicName != tn || !bytes.Equal(t2.OwnerAddress, ownerA) {
-			fail("string-form", fmt.Sprintf("string-form:topic:%q", tn), "topic name %q is admitted by the message validator but its genesis string key %q does not decode back (err=%v)", tn, compkey.EncodeToString(&tk, aoltypes.GenesisKeySeparator), err)
+			fail("string-form", sfSig("topic", tn), "topic name %q is admitted by the message validator but its genesis string key %q does not decode back (err=%v)", tn, compkey.EncodeToString(&tk, aoltypes.GenesisKeySeparator), err)
 		}
 		rk := aoltypes.RecordCompositeKey{OwnerAddress: ownerA, TopicName: tn, Offset: 7}
 		var r2 aoltypes.RecordCompositeKey
 		if err := compkey.DecodeFromString(compkey.EncodeToString(&rk, aoltypes.GenesisKeySeparator), aoltypes.GenesisKeySeparator, &r2); err != nil || r2.TopicName != tn || r2.Offset != 7 {
-			fail("string-form", fmt.Sprintf("string-form:record:%q", tn), "record key of topic %q does not round-trip through its genesis string form (err=%v)", tn, err)
+			fail("string-form", sfSig("record", tn), "record key of topic %q does not round-trip through its genesis string form (err=%v)", tn, err)
 		}
 		wk := aoltypes.WriterCompositeKey{OwnerAddress: ownerA, TopicName: tn, WriterAddress: ownerA}
 		var w2 aoltypes.WriterCompositeKey
 		if err := compkey.DecodeFromString(compkey.EncodeToString(&wk, aoltypes.GenesisKeySeparator), aoltypes.GenesisKeySeparator, &w2); err != nil || w2.TopicName != tn {
-			fail("string-form", fmt.Sprintf("string-form:writer:%q", tn), "writer key of topic %q does not round-trip through its genesis string form (err=%v)", tn, err)
+			fail("string-form", sfSig("writer", tn), "writer key of topic %q does not round-trip through its genesis string form (err=%v)", tn, err)
 		}
 	}
 	for a := 0; a < 256; a++ {
@@ -475,4 +475,12 @@ func C18(t Tier) int {
 	run.Coverage["decoder_inputs_max_len"] = L
 	run.Assumptions = []string{"component length <= 2 over a 4/5-byte alphabet for the all-pairs part; full length range 0..255 is covered for 1- and 2-component tuples"}
 	return run.Finish()
+}
+
+// sfSig: one signature per key type for names that contain the genesis separator, per name otherwise.
+func sfSig(kind, name string) string {
+	if strings.Contains(name, aoltypes.GenesisKeySeparator) {
+		return "string-form:" + kind + ":admitted-name-contains-the-genesis-separator"
+	}
+	return fmt.Sprintf("string-form:%s:%q", kind, name)
 }
